@@ -24,6 +24,8 @@ pub mod c01_merge;
 pub mod c05_patch;
 pub mod c04_diff;
 pub mod c06_root;
+pub mod c18_emissions;
+pub mod c12_frame;
 
 #[cfg(not(kani))]
 include!(concat!(env!("OUT_DIR"), "/registry.rs"));
